@@ -80,6 +80,7 @@ class PropertyRun:
         self.execs = {}
         self._searched = {}
         self._driver_cache = {}
+        self.out_of_subset = []  # contracts whose function could not be executed symbolically on this tree
         self.bounded_search = []
 
     # ------------------------------------------------------------------ deductive part
@@ -147,6 +148,13 @@ class PropertyRun:
                     traceback.print_exc()
                 info["status"] = "undecided"
                 self.undecided.append(dict(function=c.qn, reason="%s: %s" % (type(e).__name__, e)))
+                self.out_of_subset.append(c)
+            except Exception as e:  # the engine failed on this function's (possibly edited) source: undecided for this function, never a verdict
+                if os.environ.get("PYVC_DEBUG"):
+                    traceback.print_exc()
+                info["status"] = "undecided"
+                self.undecided.append(dict(function=c.qn, reason="engine error while executing the function symbolically: %s: %s" % (type(e).__name__, str(e)[:200])))
+                self.out_of_subset.append(c)
             info["gen_s"] = round(time.time() - t0, 2)
             self.functions.append(info)
 
@@ -262,6 +270,38 @@ class PropertyRun:
             except Exception as e:  # a crashing driver decides nothing
                 self._driver_cache[key] = (False, "driver crashed: %r" % (e,), None)
         return bool(self._driver_cache[key][0])
+
+    def fallback_drivers(self):
+        """A function that left the verified subset (Unsupported / unbound contract / engine error) is undecided deductively.  Its contract's
+        replay drivers -- small searches on the REAL code that evaluate clauses of the same contract concretely -- are then run as a bounded
+        stand-in: a failing input is a violation with a replayed input; nothing found leaves the function undecided."""
+        done = set()
+        for c in self.out_of_subset:
+            if not c.replay:
+                continue
+            short = c.qn.split(".")[-1]
+            if any(short in k["obligation"].split("/")[0] for k in self.known):
+                continue  # a driver of a function with recorded known findings would report those again: no stand-in for it
+            pairs = [(None, c.replay)] if isinstance(c.replay, str) else list(c.replay.items())
+            for lab, drv in pairs:
+                if (c.key, drv) in done:
+                    continue
+                done.add((c.key, drv))
+                name = "%s/%s/%s" % (self.pid, c.qn.split(".")[-1] if "." in c.qn else c.qn, ("ensures:" + lab) if lab else "driver:" + drv)
+                k = dict(witness=dict(driver=drv, args=dict(obligation=name)))
+                still, detail = replay_mod.run_witness(k, repo_root=self.repo.root)
+                self.extra_checks.append(dict(name="%s/bounded:driver[%s]" % (self.pid, drv), kind="bounded", status="violation" if still else "ok" if still is False else "undecided",
+                                              bound="replay driver of %s run as a stand-in because the function left the verified subset" % c.qn, evaluations=1,
+                                              exhaustive=False, detail=detail))
+                if still:
+                    rdir = os.path.join(ROOT, "replays", self.pid)
+                    os.makedirs(rdir, exist_ok=True)
+                    path = os.path.join(rdir, re.sub(r"[^A-Za-z0-9_.\-]+", "_", name.split("/", 1)[1]) + ".json")
+                    with open(path, "w") as f:
+                        json.dump(dict(property=self.pid, obligation=name, function=c.qn, why="the function could not be executed symbolically on this tree "
+                                       "(outside the verified subset); the contract's replay driver found a failing input on the real code",
+                                       replay=dict(confirmed=True, detail=detail, inputs=dict(driver=drv))), f, indent=1)
+                    self.violations.append(dict(obligation=name, replay=path, confirmed=True, detail=detail))
 
     def load_baseline(self):
         p = os.path.join(ROOT, "baseline", self.pid + ".json")
@@ -473,6 +513,7 @@ def main(argv=None):
         if a.update_baseline:
             run.write_baseline()
         run.run_extras()
+        run.fallback_drivers()
         run.report_known()
         ev = run.evidence(level, note)
     except Exception:
